@@ -18,6 +18,10 @@ pub open spec fn logenc_ok(v: v1::DecisionVariable) -> bool {
 pub open spec fn dv_ids(dvs: Seq<v1::DecisionVariable>, n: int) -> Set<u64> decreases n {
     if n <= 0 { Set::empty() } else { dv_ids(dvs, n - 1).insert(dvs[n - 1].id) }
 }
+pub broadcast proof fn lemma_dv_ids_mem_b(t: Seq<v1::DecisionVariable>, n: int, k: u64)
+    requires 0 <= n <= t.len()
+    ensures #[trigger] dv_ids(t, n).contains(k) <==> exists|i: int| 0 <= i < n && (#[trigger] t[i]).id == k
+{ lemma_dv_ids_mem(t, n, k); }
 pub proof fn lemma_dv_ids_mem(t: Seq<v1::DecisionVariable>, n: int, k: u64)
     requires 0 <= n <= t.len()
     ensures dv_ids(t, n).contains(k) <==> exists|i: int| 0 <= i < n && (#[trigger] t[i]).id == k
